@@ -6,33 +6,37 @@
    each carrying the skip flags in force, the result of freeze_measurements(),
    the likelihood vector (None = invalid), the prediction as a function on
    (index, state) and the resampling offset u1.  The only premise on an event
-   (wf_ev) is that a valid likelihood vector has one entry per particle. *)
+   (wf_ev) is that a valid likelihood vector has one NON-NEGATIVE entry per
+   particle (GaussianLikelihood: scale_factor >= 0; a negative scale makes every
+   log-weight NaN for ever in the C++ and is outside the domain).  A particle is a
+   pair (state column, mean/covariance blocks): the prediction replaces the states
+   only, copies and resampling carry the whole particle. *)
 Require Import Reals ZArith QArith List Lra Lia.
 Require Import BFL.Ops BFL.ListOps BFL.C07_Model BFL.C07_ROps BFL.C07_Proofs BFL.C06_Model BFL.C06_Proofs.
 Import ListNotations.
 Local Open Scope R_scope.
 
 Section C06.
-Variable St : Type.
+Variables St Aux : Type.   (* state column; mean and covariance blocks of a particle *)
 Variables (N dl dc : nat).
 Hypothesis Npos : (0 < N)%nat.
 
 (* N particles, layout (dl, dc), log-sum-exp of the log-weights zero *)
-Definition set_ok (s : @sset ROps St) : Prop :=
-  (length (s_states s) = N /\ length (s_lw s) = N /\ s_lin s = dl /\ s_circ s = dc) /\ lse ROps (s_lw s) = 0.
+Definition set_ok (s : @sset ROps St Aux) : Prop :=
+  (length (s_parts s) = N /\ length (s_lw s) = N /\ s_lin s = dl /\ s_circ s = dc) /\ lse ROps (s_lw s) = 0.
 
 (* invariant after EVERY step of every history (sis_trace lists the states after each step) *)
-Theorem C06_inv_every_step (evs : list (@event ROps St)) (st0 : @sis_state ROps St) :
+Theorem C06_inv_every_step (evs : list (@event ROps St)) (st0 : @sis_state ROps St Aux) :
   step st0 = 0%nat -> set_ok (pred st0) -> Forall (wf_ev St N) evs ->
   Forall (fun st => set_ok (pred st) /\ set_ok (cor st)) (sis_trace N st0 evs).
-Proof. exact (trace_inv_statement St N dl dc Npos evs st0). Qed.
+Proof. exact (trace_inv_statement St Aux N dl dc Npos evs st0). Qed.
 
 (* the same for the final state of the fold over the event list, with the step counter *)
-Theorem C06_inv (evs : list (@event ROps St)) (st0 : @sis_state ROps St) :
+Theorem C06_inv (evs : list (@event ROps St)) (st0 : @sis_state ROps St Aux) :
   step st0 = 0%nat -> set_ok (pred st0) -> Forall (wf_ev St N) evs -> evs <> [] ->
   (set_ok (pred (sis_run N st0 evs)) /\ set_ok (cor (sis_run N st0 evs))) /\
   step (sis_run N st0 evs) = length evs.
-Proof. exact (run_inv_statement St N dl dc Npos evs st0). Qed.
+Proof. exact (run_inv_statement St Aux N dl dc Npos evs st0). Qed.
 
 (* every argument handed to ln is positive when the likelihoods are non-negative:
    lik + tiny in the re-weighting, the sum inside log_sum_exp, N in -ln N *)
@@ -44,36 +48,69 @@ Proof. exact (ln_args_statement N Npos). Qed.
 
 (* measurement available, correction not skipped, likelihood valid:
    exp lw'_i = exp lw_i (l_i + tiny) / sum_k exp lw_k (l_k + tiny)  (before the resampling test) *)
-Theorem C06_reweight (st : @sis_state ROps St) (ev : @event ROps St) (l : list R) :
+Theorem C06_reweight (st : @sis_state ROps St Aux) (ev : @event ROps St) (l : list R) :
   ev_freeze ev = true -> ev_skip_corr ev = false -> ev_lik ev = Some l ->
   length l = N -> Forall (fun x => 0 <= x) l -> length (s_lw (pred (sis_mid st ev))) = N ->
   forall i, (i < N)%nat ->
   let lwp := s_lw (pred (sis_mid st ev)) in
   exp (nth i (s_lw (cor (sis_mid st ev))) 0)
   = exp (nth i lwp 0) * (nth i l 0 + Rtiny) / sumR (map (fun p => exp (fst p) * (snd p + Rtiny)) (combine lwp l)).
-Proof. exact (reweight St N Npos st ev l). Qed.
+Proof. exact (reweight St Aux N Npos st ev l). Qed.
 
 (* acquisition fails: the corrected set IS the predicted set *)
-Theorem C06_no_measurement (st : @sis_state ROps St) (ev : @event ROps St) :
+Theorem C06_no_measurement (st : @sis_state ROps St Aux) (ev : @event ROps St) :
   ev_freeze ev = false -> cor (sis_mid st ev) = pred (sis_mid st ev).
-Proof. exact (no_measurement St st ev). Qed.
+Proof. exact (no_measurement St Aux st ev). Qed.
 
 (* resampling happens iff neff < N/3; then all weights are -ln N; otherwise the corrected set is kept *)
-Theorem C06_resample_iff (st : @sis_state ROps St) (ev : @event ROps St) :
+Theorem C06_resample_iff (st : @sis_state ROps St Aux) (ev : @event ROps St) :
   let m := sis_mid st ev in
   (needs_resampling N (cor m) = true <-> neff ROps (s_lw (cor m)) < INR N / 3) /\
   (needs_resampling N (cor m) = true ->
      cor (sis_step N st ev) = resampled (cor m) (ev_u1 ev) /\
-     (wf_set St N dl dc (cor m) -> s_lw (cor (sis_step N st ev)) = repeat (- ln (INR N)) N)) /\
+     (wf_set St Aux N dl dc (cor m) -> s_lw (cor (sis_step N st ev)) = repeat (- ln (INR N)) N)) /\
   (needs_resampling N (cor m) = false -> cor (sis_step N st ev) = cor m) /\
   pred (sis_step N st ev) = pred m /\ step (sis_step N st ev) = Datatypes.S (step st).
-Proof. exact (resample_iff St N dl dc st ev). Qed.
+Proof. exact (resample_iff St Aux N dl dc st ev). Qed.
 
 (* the resampled set has the layout of the corrected set
    (false before /repo commit 356425a: C06_Proofs.old_resampling_loses_layout) *)
-Theorem C06_resample_keeps_layout (c : @sset ROps St) (u1 : R) :
+Theorem C06_resample_keeps_layout (c : @sset ROps St Aux) (u1 : R) :
   s_lin (resampled c u1) = s_lin c /\ s_circ (resampled c u1) = s_circ c.
-Proof. exact (resampled_layout St c u1). Qed.
+Proof. exact (resampled_layout St Aux c u1). Qed.
+
+(* the function the driver runs and prints (sis_trace_full) has sis_trace as its third components, and its
+   first two are the corrected set before the resampling test and the decision taken on it *)
+Theorem C06_trace_full_bridge (evs : list (@event ROps St)) (st : @sis_state ROps St Aux) :
+  map snd (sis_trace_full N st evs) = sis_trace N st evs.
+Proof. exact (trace_full_bridge St Aux N evs st). Qed.
+
+(* measurement acquired but unusable (correction skipped or likelihood invalid): the corrected set is the
+   predicted set, provided the predicted weights were normalised (they are, by the invariant) *)
+Theorem C06_no_usable_likelihood (st : @sis_state ROps St Aux) (ev : @event ROps St) :
+  ev_freeze ev = true -> (ev_skip_corr ev = true \/ ev_lik ev = None) ->
+  lse ROps (s_lw (pred (sis_mid st ev))) = 0 -> cor (sis_mid st ev) = pred (sis_mid st ev).
+Proof. exact (no_usable_likelihood St Aux st ev). Qed.
+
+(* after every step no resampling is pending (neff >= N/3) ... *)
+Theorem C06_settled_after_step (st : @sis_state ROps St Aux) (ev : @event ROps St) :
+  wf_set St Aux N dl dc (cor (sis_mid st ev)) -> needs_resampling N (cor (sis_step N st ev)) = false.
+Proof. exact (settled_after_step St Aux N dl dc Npos st ev). Qed.
+
+(* ... hence from the second step on a failed acquisition gives cor = pred at the END of the step *)
+Theorem C06_no_measurement_end_of_step (st : @sis_state ROps St Aux) (ev : @event ROps St) :
+  step st <> 0%nat -> needs_resampling N (cor st) = false -> ev_freeze ev = false ->
+  cor (sis_step N st ev) = pred (sis_step N st ev).
+Proof. exact (no_measurement_end_of_step St Aux N st ev). Qed.
+
+(* positivity at the ln and division sites of one step, from the invariant and a non-negative likelihood *)
+Theorem C06_step_sites_positive (st : @sis_state ROps St Aux) (ev : @event ROps St) :
+  PreInv St Aux N dl dc st -> wf_ev St N ev ->
+  (forall l, ev_lik ev = Some l -> Forall (fun x => 0 < x) (lik_args ROps l)) /\
+  (0 < lse_arg (s_lw (correct ev (pred (sis_mid st ev))))) /\
+  (0 < sumR (map (fun x => exp x * exp x) (s_lw (cor (sis_mid st ev))))) /\
+  0 < INR N.
+Proof. exact (step_sites_positive St Aux N dl dc Npos st ev). Qed.
 
 End C06.
 
@@ -81,19 +118,19 @@ End C06.
    one circular component, QOps has sexp = sln = identity so only the structure is exercised:
    a failed acquisition copies the predicted set, the layout survives, the step counter advances *)
 Example C06_initial_state_exists :
-  let s := @mkSset ROps nat 1 1 [7; 8; 9]%nat [- ln 3; - ln 3; - ln 3] in
-  set_ok nat 3 1 1 s.
+  let s := @mkSset ROps nat nat 1 1 [(7, 0); (8, 1); (9, 2)]%nat [- ln 3; - ln 3; - ln 3] in
+  set_ok nat nat 3 1 1 s.
 Proof.
-  cbv zeta. unfold set_ok. cbn [s_states s_lw s_lin s_circ length]. repeat split; auto.
+  cbv zeta. unfold set_ok. cbn [s_parts s_lw s_lin s_circ length]. repeat split; auto.
   rewrite (lse_spec [- ln 3; - ln 3; - ln 3]) by congruence. simpl. rewrite exp_Ropp, exp_ln by lra.
   replace (/ 3 + (/ 3 + (/ 3 + 0))) with 1 by lra. apply ln_1.
 Qed.
 
 Example C06_concrete_Q :
-  let s := @mkSset QOps nat 1 1 [7; 8; 9]%nat [1#3; 1#3; 1#3]%Q in
+  let s := @mkSset QOps nat nat 1 1 [(7, 0); (8, 1); (9, 2)]%nat [1#3; 1#3; 1#3]%Q in
   let ev := @mkEvent QOps nat false false false None (fun i x => (x + i)%nat) (1#10)%Q in
-  let st := sis_step 3 (sis_step 3 (@mkSis QOps nat 0 s s) ev) ev in
-  (step st, s_lin (cor st), s_circ (cor st), s_states (pred st)) = (2%nat, 1%nat, 1%nat, [7; 9; 11]%nat).
+  let st := sis_step 3 (sis_step 3 (@mkSis QOps nat nat 0 s s) ev) ev in
+  (step st, s_lin (cor st), s_circ (cor st), s_parts (pred st)) = (2%nat, 1%nat, 1%nat, [(7, 0); (9, 1); (11, 2)]%nat).
 Proof. vm_compute. reflexivity. Qed.
 
 Print Assumptions C06_inv_every_step.
@@ -103,3 +140,8 @@ Print Assumptions C06_reweight.
 Print Assumptions C06_no_measurement.
 Print Assumptions C06_resample_iff.
 Print Assumptions C06_resample_keeps_layout.
+Print Assumptions C06_trace_full_bridge.
+Print Assumptions C06_no_usable_likelihood.
+Print Assumptions C06_settled_after_step.
+Print Assumptions C06_no_measurement_end_of_step.
+Print Assumptions C06_step_sites_positive.
